@@ -360,6 +360,29 @@ func checkC11(c *mc.Ctx) {
 			m.WritePacket(p)
 		}
 		nre += int64(len(po.Pkts))
+		// the same through a Muxer that already knows the stream's PIDs as elementary streams and has
+		// written data on one of them (WritePacket must emit the caller's packet as it is)
+		rw2 := NewRecWriter()
+		m2 := astits.NewMuxer(context.Background(), rw2)
+		seenPID := map[uint16]bool{}
+		for _, p := range po.Pkts {
+			if pid := p.Header.PID; !seenPID[pid] && pid > 0x1f && pid != 0x1000 && pid != 0x1fff {
+				seenPID[pid] = true
+				m2.AddElementaryStream(astits.PMTElementaryStream{ElementaryPID: pid, StreamType: astits.StreamTypeH264Video})
+				m2.SetPCRPID(pid)
+			}
+		}
+		for pid := range seenPID {
+			m2.WriteData(&astits.MuxerData{PID: pid, PES: &astits.PESData{Data: []byte{1, 2, 3}, Header: MakeHdr("pts", 0, 1)}})
+			break
+		}
+		from := len(rw2.Buf)
+		for _, p := range po.Pkts {
+			m2.WritePacket(p)
+		}
+		if !bytes.Equal(rw2.Buf[from:], st.Bytes) {
+			c.Rep.Report("reemit-stream-differs:registered-pids", map[string]any{"kind": "stream", "stream": st.Name, "bytes": mc.Hex(st.Bytes), "message": "packets re-emitted with WritePacket through a Muxer that has their PIDs registered as elementary streams do not reproduce the stream"})
+		}
 		if !bytes.Equal(rw.Buf, st.Bytes) {
 			c.Rep.Report("reemit-stream-differs", map[string]any{"kind": "stream", "stream": st.Name, "bytes": mc.Hex(st.Bytes), "message": "packets read with NextPacket and re-emitted after the whole stream was read do not reproduce the stream"})
 		}
